@@ -38,6 +38,8 @@ pub enum Op {
     /// order given, so descending pairs, repeated pairs and self-loops all occur), plus
     /// isolated nodes
     FromGraph { edges: Vec<(Key, Key)>, isolated: Vec<Key> },
+    /// the first `k` keys of the key window, every third one joined to a pseudo-random other
+    BulkKeys(usize),
     BuildUpdateEdge(Key, Key),
     RemoveNode(Key),
     RemoveEdge(Key, Key),
@@ -72,6 +74,7 @@ impl Op {
             Op::FromElements => ("from_elements", 14),
             Op::Clone => ("clone", 15),
             Op::FromGraph { .. } => ("from_graph", 16),
+            Op::BulkKeys(_) => ("bulk_add_nodes", 17),
         }
     }
 }
@@ -161,11 +164,17 @@ impl History for GraphMapEngine {
         "history with >= 3 applied operations, >= 1 edge inserted and >= 1 successful removal"
     }
     fn gen_cfg(&self, rng: &mut Rng, tier: Tier) -> (Cfg, usize) {
-        let span = match rng.below(10) {
+        let mut span = match rng.below(10) {
             0..=3 => 3,
             4..=8 => 8,
             _ => 30,
         };
+        // now and then a map of several hundred to a good thousand nodes (not in the visit
+        // engine, whose battery compares all pairs of nodes)
+        let many = !self.visit && rng.chance(1, 120);
+        if many {
+            span = *rng.pick(&[300i32, 1040, 1300]);
+        }
         let key_lo = -(rng.below(3) as i32);
         let mut disabled = 0u32;
         for k in 7..=15u32 {
@@ -174,7 +183,7 @@ impl History for GraphMapEngine {
             }
         }
         let base = if tier == Tier::Thorough { 30 } else { 18 };
-        let len = rng.geometric(1, base, 100);
+        let len = if many { rng.range(8, 30) } else { rng.geometric(1, base, 100) };
         (
             Cfg {
                 directed: rng.chance(1, 2),
@@ -233,6 +242,9 @@ fn gen_list(rng: &mut Rng, cfg: &Cfg, m: &Model) -> Vec<(Key, Key)> {
 }
 
 fn gen_op(rng: &mut Rng, cfg: &Cfg, m: &Model) -> Op {
+    if cfg.key_hi - cfg.key_lo >= 300 && m.nodes.is_empty() {
+        return Op::BulkKeys((cfg.key_hi - cfg.key_lo - 10) as usize);
+    }
     for _ in 0..20 {
         let op = match rng.below(100) {
             0..=9 => Op::AddNode(pick_key(rng, cfg, m)),
@@ -593,6 +605,31 @@ fn run<Ty: EdgeType + Clone>(name: &'static str, visit: bool, cfg: &Cfg, mut fee
                     removals += 1;
                 }
             }
+            Op::BulkKeys(k) => {
+                let k = (*k).min(1400);
+                for i in 0..k {
+                    let a = cfg.key_lo + i as i32;
+                    if let Err(p) = catch(|| g.add_node(a)) {
+                        bail!(kind, "panic", "add_node({}) panicked with {} nodes: {}", a, m.nodes.len(), p);
+                    }
+                    m.nodes.insert(a);
+                    if i % 3 == 0 {
+                        let b = cfg.key_lo + ((i * 7 + 3) % k) as i32;
+                        let w = fresh();
+                        match catch(|| g.add_edge(a, b, w)) {
+                            Ok(old) => {
+                                let exp = m.add_edge(a, b, w);
+                                if old != exp {
+                                    bail!(kind, "result", "add_edge({}, {}) returned {:?}, model {:?}", a, b, old, exp);
+                                }
+                                edges_added += 1;
+                            }
+                            Err(p) => bail!(kind, "panic", "add_edge({}, {}) panicked: {}", a, b, p),
+                        }
+                    }
+                }
+                acc.probe_if(m.nodes.len() > 1024, "graphmap_more_than_1024_nodes");
+            }
             Op::Clear => {
                 if let Err(p) = catch(|| g.clear()) {
                     bail!(kind, "panic", "clear panicked: {}", p);
@@ -775,6 +812,9 @@ fn run<Ty: EdgeType + Clone>(name: &'static str, visit: bool, cfg: &Cfg, mut fee
                     }
                     Ok(GraphMap::from_graph(gr))
                 }
+                // a Graph of that index width must be able to hold the map (otherwise into_graph
+                // takes the documented panic of Graph::add_node / add_edge)
+                let width = if m.nodes.len() >= 250 || m.edges.len() >= 250 { if m.nodes.len() >= 60_000 || m.edges.len() >= 60_000 { &Width::U32 } else if *width == Width::U8 { &Width::U16 } else { width } } else { width };
                 let r = catch(|| match width {
                     Width::U8 => rt::<Ty, u8>(&g, &m),
                     Width::U16 => rt::<Ty, u16>(&g, &m),
